@@ -165,6 +165,9 @@ func c14MutGen(r *RNG, tier string) []json.RawMessage {
 			ts := TableSpec{Header: &h, Rows: []RowSpec{{Cells: []ItemSpec{{K: "int", I: 1}, obj(mask, "first")}}, {Cells: []ItemSpec{{K: "int", I: 2}, Str("plain")}}}}
 			out = append(out, mustJSON(C14Spec{Table: ts, Props: (a+m)%2 == 0, Renders: []C14Render{
 				mut(0, 1, "second, longer", a+m, false), {Slot: a, Fresh: m % 3}, {Slot: m, Fresh: a % 3}, {Slot: a, Fresh: (m + 1) % 3}, {Slot: m}}}))
+			if (a+m)%2 == 1 && tier != "thorough" {
+				continue
+			}
 			// the same in a header cell and a second body cell, changed between renders, later updated
 			h2 := []ItemSpec{obj(mask, "hd"), Str("v")}
 			ts2 := TableSpec{Header: &h2, Rows: []RowSpec{{Cells: []ItemSpec{Str("k"), obj((mask+7)%32, "one\ntwo")}}, {Sep: true}, {How: 1, Cells: []ItemSpec{obj((mask+13)%32, ""), Str("w")}}}}
